@@ -19,6 +19,7 @@ import (
 	"strconv"
 	"strings"
 	"sync"
+	"sync/atomic"
 	"time"
 
 	"github.com/samber/ro"
@@ -263,12 +264,13 @@ func runResubCase(c *Case) string {
 	}
 
 	var target ro.Observable[int]
+	var opv func(ro.Observable[int]) ro.Observable[int] // the operator VALUE (decoy=1 applies it to a second upstream afterwards)
 	switch op {
 	case "Retry":
 		if len(p) != 0 {
 			return "res " + c.id + " unsupported"
 		}
-		target = ro.Retry[int]()(obs)
+		opv = ro.Retry[int]()
 	case "RetryWithConfig":
 		if len(p) != 3 || p[0] < 0 {
 			return "res " + c.id + " unsupported"
@@ -282,30 +284,30 @@ func runResubCase(c *Case) string {
 			}
 			delay = 3 * time.Second
 		}
-		target = ro.RetryWithConfig[int](ro.RetryConfig{
+		opv = ro.RetryWithConfig[int](ro.RetryConfig{
 			MaxRetries:     uint64(p[0]),
 			Delay:          delay,
 			ResetOnSuccess: p[2] != 0,
-		})(obs)
+		})
 	case "RepeatWith":
 		if len(p) != 1 || p[0] < 0 {
 			return "res " + c.id + " unsupported"
 		}
-		target = ro.RepeatWith[int](int64(p[0]))(obs)
+		opv = ro.RepeatWith[int](int64(p[0]))
 	case "While":
 		if variant == "ictx" {
-			target = ro.WhileIWithContext[int](ctxCond)(obs)
+			opv = ro.WhileIWithContext[int](ctxCond)
 		} else {
-			target = ro.While[int](plainCond)(obs)
+			opv = ro.While[int](plainCond)
 		}
 	case "DoWhile":
 		if variant == "ictx" {
-			target = ro.DoWhileIWithContext[int](ctxCond)(obs)
+			opv = ro.DoWhileIWithContext[int](ctxCond)
 		} else {
-			target = ro.DoWhile[int](plainCond)(obs)
+			opv = ro.DoWhile[int](plainCond)
 		}
 	case "Catch":
-		target = ro.Catch(func(err error) ro.Observable[int] { return obs })(obs)
+		opv = ro.Catch(func(err error) ro.Observable[int] { return obs })
 	case "OnErrorResumeNextWith":
 		if len(p) != 1 || p[0] < 0 {
 			return "res " + c.id + " unsupported"
@@ -314,7 +316,7 @@ func runResubCase(c *Case) string {
 		for i := range fb {
 			fb[i] = obs
 		}
-		target = ro.OnErrorResumeNextWith(fb...)(obs)
+		opv = ro.OnErrorResumeNextWith(fb...)
 	case "Concat":
 		if len(p) != 1 || p[0] < 0 {
 			return "res " + c.id + " unsupported"
@@ -325,6 +327,22 @@ func runResubCase(c *Case) string {
 		}
 		target = ro.Concat(srcs...)
 	default:
+		return "res " + c.id + " unsupported"
+	}
+	var decoySubs int32
+	if opv != nil {
+		target = opv(obs)
+		if c.get("decoy", "-") == "1" {
+			// the same operator value applied to ANOTHER upstream after the pipeline under test was built: a pipeline is a
+			// function of its own source, so the decoy is never subscribed and the run is the one without it
+			_ = opv(ro.NewUnsafeObservable(func(dest ro.Observer[int]) ro.Teardown {
+				atomic.AddInt32(&decoySubs, 1)
+				dest.Next(900)
+				dest.Complete()
+				return nil
+			}))
+		}
+	} else if c.get("decoy", "-") == "1" {
 		return "res " + c.id + " unsupported"
 	}
 
@@ -421,6 +439,9 @@ func runResubCase(c *Case) string {
 		} else {
 			res += " prompt=0"
 		}
+	}
+	if c.get("decoy", "-") == "1" {
+		res += fmt.Sprintf(" decoy=%d", atomic.LoadInt32(&decoySubs))
 	}
 	return res
 }
@@ -545,6 +566,11 @@ func genResub(tier string, seed int64, only string) []*Case {
 		id++
 		cases = append(cases, newCase(id, "kind", "resub", "op", op, "p", p, "var", variant, "cond", cond, "ct", ct,
 			"mode", mode, "cut", cut, "cancel", cancel, "sub", "7", "srcs", shapesString(l)))
+		if op != "Concat" && mode == "sync" && cancel == "-" && (thorough || id%5 == 0) {
+			id++
+			cases = append(cases, newCase(id, "kind", "resub", "op", op, "p", p, "var", variant, "cond", cond, "ct", ct,
+				"mode", mode, "cut", cut, "cancel", cancel, "sub", "7", "srcs", shapesString(l), "decoy", "1"))
+		}
 	}
 	// sample(k): true for roughly one case in k in the quick tier, always in thorough
 	sample := func(k int) bool { return thorough || r.Intn(k) == 0 }
